@@ -284,6 +284,22 @@ Definition mresample {B : Type} (o : B) (n0 : nat) (idx0 thr stp one : Z) : mach
     | RFin => Stop
     end).
 
+(* resample with a time-varying step (old or new given as a Stream): the step stream is source 1.
+   Per output: yield, then next(step) (end of the step stream ends the output), then
+   while idx > thr: read one input item.  The step VALUE is taken constant (stp); its read is modelled. *)
+Inductive rtv_st := VTake (j : nat) | VGo (idx : Z) | VStep (idx : Z) | VFin.
+Definition mresample_tv {B : Type} (o : B) (n0 : nat) (idx0 thr stp one : Z) : machine A B :=
+  Machine rtv_st (VTake n0) (fun s =>
+    match s with
+    | VTake (S j) => Read 0 (fun x => match x with Some _ => VTake j | None => VFin end)
+    | VTake 0 => Tau (VGo idx0)
+    | VGo idx => if (thr <? idx)%Z
+                 then Read 0 (fun x => match x with Some _ => VGo (idx - one)%Z | None => VFin end)
+                 else Yield o (VStep idx)
+    | VStep idx => Read 1 (fun x => match x with Some _ => VGo (idx + stp)%Z | None => VFin end)
+    | VFin => Stop
+    end).
+
 (* zcross(seq, hysteresis, first_sign=0): the first loop yields 0 until an item outside the
    hysteresis region fixes the sign, then the second loop takes over the same iterator; when the
    input ends inside the first loop, the second loop asks the exhausted iterator once more *)
